@@ -43,6 +43,7 @@ class Registry:
         self.globals = {}                 # global name -> handler(eng, st) -> Val
         self.global_calls = {}            # global callable name -> handler(eng, st, node)
         self.hooks = {}                   # misc hooks: sorted, size_of, to_set, ...
+        self.extra_trusted = []           # dicts of assumed dependency contracts (name -> statement)
 
     # ---- registration
     def add(self, c: Contract, method_of=None, nested_in=None):
@@ -58,6 +59,14 @@ class Registry:
 
     def add_model(self, pred, model):
         self.models.append((pred, model))
+
+    def trusted_externals(self):
+        out = {}
+        from . import externals_aeon
+        out.update(externals_aeon.TRUSTED)
+        for m in self.extra_trusted:
+            out.update(m)
+        return out
 
     def axioms_for(self, c):
         from . import theory as T
